@@ -96,6 +96,8 @@ def job_sequences(L, first, max_paths, timeout):
     T, LEX, IDX = tables()
     N = len(LEX)
 
+    prev = [None]
+
     def run(ex):
         vs = [z3.Int(f'c{i}') for i in range(L)]
         for v in vs:
@@ -103,11 +105,12 @@ def job_sequences(L, first, max_paths, timeout):
         ex.assume(vs[0] == first)
         toks = [SymTok(ex, IDX[T.EqOperatorToken], IDX, 0)] + [SymTok(ex, v, IDX, i + 1) for i, v in enumerate(vs)]
         out = classify(toks)
-        if out is None:
-            return None
         m = ex.model()
         seq = [LEX[m.eval(v, model_completion=True).as_long()].__name__ for v in vs] if m is not None else []
-        return dict(kind=out, classes=seq)
+        before, prev[0] = prev[0], seq
+        if out is None:
+            return None
+        return dict(kind=out, classes=seq, prev=before)
     return e2.explore(run, max_paths=max_paths, timeout=timeout, max_failures=20)
 
 
@@ -160,6 +163,7 @@ def job_mutations(name, base_idx, mode, timeout, collect=False):
     N = len(LEX)
     n = len(base_idx)
     accepted = []
+    prev = [None]
     COLLECT[0] = collect
 
     def run(ex):
@@ -188,16 +192,16 @@ def job_mutations(name, base_idx, mode, timeout, collect=False):
         toks = [SymTok(ex, IDX[T.EqOperatorToken], IDX, 0)] + [SymTok(ex, v, IDX, i + 1) for i, v in enumerate(seq)]
         del ACCEPTED[:]
         out = classify(toks)
-        if out is None:
-            if ACCEPTED and len(accepted) < 60:
-                m = ex.model()
-                accepted.append([LEX[v].__name__ if isinstance(v, int) else LEX[m.eval(v, model_completion=True).as_long()].__name__ for v in seq])
-            return None
         m = ex.model()
         names = []
         for v in seq:
             names.append(LEX[v].__name__ if isinstance(v, int) else (LEX[m.eval(v, model_completion=True).as_long()].__name__ if m is not None else '?'))
-        return dict(kind=out, classes=names, instance=name, mode=mode, pos=p)
+        before, prev[0] = prev[0], names
+        if out is None:
+            if ACCEPTED and len(accepted) < 60:
+                accepted.append(names)
+            return None
+        return dict(kind=out, classes=names, instance=name, mode=mode, pos=p, prev=before)
     r = e2.explore(run, timeout=timeout, max_failures=20)
     r['accepted'] = accepted
     return r
@@ -221,11 +225,21 @@ def canonical_text(class_names):
     return '=' + ' '.join(parts)
 
 
-def replay_text(text):
-    """native replay through the real lexer and parser (no proxies): same classification on real tokens"""
+PRELUDES = ['=SUM(1,2)+MAX(3', '=IF(A1>1,2', '=1+', '=(A1+B1', '=ROUND(A1,2,3)+1']
+
+
+def replay_text(text, prelude=None):
+    """native replay through the real lexer and parser (no proxies): same classification on real tokens.
+    prelude: a formula parsed (and rejected) immediately before, for failures that depend on the parser's history"""
     from excel2pycl.src.cell import Cell
     from excel2pycl.src.exceptions import E2PyclException
     from excel2pycl.src.lexer import Lexer
+    if prelude is not None:
+        try:
+            from excel2pycl.src.ast_builder import AstBuilder
+            AstBuilder.parse(Lexer.parse(prelude, Cell(0, 0, 0)), Cell(0, 0, 0))
+        except Exception:
+            pass
     try:
         toks = Lexer.parse(text, Cell(0, 0, 0))
     except E2PyclException:
@@ -233,3 +247,26 @@ def replay_text(text):
     except Exception as e:
         return ('foreign', type(e).__name__), []
     return classify(toks), [type(t).__name__ for t in toks]
+
+
+def history_probe():
+    """native: does the parse of a formula depend on a formula rejected just before it?  Run in a fresh child process.
+    -> None or (prelude, text, tree_before, tree_after)"""
+    from excel2pycl.src.ast_builder import AstBuilder
+    from excel2pycl.src.cell import Cell
+    from excel2pycl.src.lexer import Lexer
+
+    def tree(text):
+        try:
+            return str(AstBuilder.parse(Lexer.parse(text, Cell(0, 0, 0)), Cell(0, 0, 0)))
+        except Exception as e:
+            return 'EXC ' + type(e).__name__
+    texts = [canonical_text([c.__name__ for c in seq]) for _, seq in function_instances()] + ['=SUM(5,6)+B1*2', '=A1+B1*C1', '=IF(A1>1,B1,C1)&"x"']
+    clean = {t: tree(t) for t in texts}
+    for pre in PRELUDES:
+        for t in texts:
+            tree(pre)
+            after = tree(t)
+            if after != clean[t]:
+                return (pre, t, clean[t][:300], after[:300])
+    return None
